@@ -171,6 +171,19 @@ func c05Session(seed int64, deadline time.Duration) *c05Result {
 		totalB += x
 	}
 	bufSeed := rng.Int63()
+	// Some sessions sit idle before the transfer for longer than both
+	// keepalive intervals (5 s / 7 s), so that pings have been exchanged in
+	// both directions; some have a consumer that starts late and pauses, so
+	// that more than a window of GBN messages waits behind it.
+	idleFirst := rng.Intn(4) == 0
+	slowReader := rng.Intn(4) == 0
+	if idleFirst {
+		profile += "+idle"
+	}
+	if slowReader {
+		profile += "+slowreader"
+	}
+	res.profile = profile
 	res.rep = map[string]any{"seed": seed, "profile": profile, "fault_until": faultUntil.String(), "writes_c2s": sizesA, "writes_s2c": sizesB}
 
 	m.StartServer()
@@ -192,7 +205,13 @@ func c05Session(seed int64, deadline time.Duration) *c05Result {
 	reader := func(conn net.Conn, dir byte, total int, done *atomic.Bool, cnt *atomic.Int64, br *rand.Rand) {
 		bufs := []int{1, 2, 3, 17, 4096, 32767, 32768, 32769, 65535, 100000}
 		off := 0
+		if slowReader {
+			time.Sleep(time.Duration(700+br.Intn(800)) * time.Millisecond)
+		}
 		for off < total {
+			if slowReader && br.Intn(12) == 0 {
+				time.Sleep(time.Duration(br.Intn(400)) * time.Millisecond)
+			}
 			b := make([]byte, bufs[br.Intn(len(bufs))]+br.Intn(3))
 			for i := range b {
 				b[i] = 0xA5
@@ -243,6 +262,13 @@ func c05Session(seed int64, deadline time.Duration) *c05Result {
 				// out the next one
 				go func() {
 					defer appWG.Done()
+					if idleFirst {
+						select {
+						case <-time.After(8500 * time.Millisecond):
+						case <-stop:
+							return
+						}
+					}
 					if _, err := eng.StreamWriter(conn, wdir, wsizes); err != nil {
 						lastFail.Store(int64(time.Since(t0)))
 						_ = conn.Close()
